@@ -352,13 +352,14 @@ def AvgDT (ns : List (DT × Rat × Nat)) (dt : Option DT) : Prop :=
   (ns ≠ [] → ∃ d0, dt = some d0 ∧ d0.isNumericOp = true ∧ d0.isFloating = (ns.map (·.1)).any DT.isFloating)
 
 theorem avg_inv (a : AggSpec) (hk : a.kind = .avg) (rows : List Row) :
-    ∃ seen dt, accRun a rows = .avg (sumRat ((numArgs a rows).map (·.2.1))) (numArgs a rows).length dt seen ∧
+    ∃ seen dt, accRun a rows = .avg (sumRat ((numArgs a rows).map (·.2.1))) (maxScale ((numArgs a rows).map (·.2.2)))
+        (numArgs a rows).length dt seen ∧
       AvgDT (numArgs a rows) dt ∧ (a.dist = true → ∀ t, t ∈ seen ↔ t ∈ numTerms a rows) := by
   refine accRun_induction a (fun rows st => ∃ seen dt, st = .avg (sumRat ((numArgs a rows).map (·.2.1)))
-      (numArgs a rows).length dt seen ∧ AvgDT (numArgs a rows) dt ∧
+      (maxScale ((numArgs a rows).map (·.2.2))) (numArgs a rows).length dt seen ∧ AvgDT (numArgs a rows) dt ∧
       (a.dist = true → ∀ t, t ∈ seen ↔ t ∈ numTerms a rows)) ?_ ?_ rows
   · have e0 : numTerms a [] = [] := rfl
-    refine ⟨[], none, by simp [initAcc, hk, numArgs, e0, dedupIf, firstOcc, sumRat], ?_, fun _ t => by simp [e0]⟩
+    refine ⟨[], none, by simp [initAcc, hk, numArgs, e0, dedupIf, firstOcc, sumRat, maxScale], ?_, fun _ t => by simp [e0]⟩
     simp [AvgDT, numArgs, e0, dedupIf, firstOcc]
   · rintro rows r st ⟨seen, dt, rfl, hdt, hseen⟩
     simp only [AccSt.update]
@@ -396,12 +397,14 @@ theorem avg_inv (a : AggSpec) (hk : a.kind = .avg) (rows : List Row) :
             rw [hcfl, hfl]
             simp [List.any_append]
         obtain ⟨c, hc, hcdt⟩ := hnew
-        have step : ∀ seen', AccSt.avg (sumRat ((numArgs a rows).map (·.2.1)) + x) ((numArgs a rows).length + 1)
+        have step : ∀ seen', AccSt.avg (sumRat ((numArgs a rows).map (·.2.1)) + x)
+            (max (maxScale ((numArgs a rows).map (·.2.2))) s) ((numArgs a rows).length + 1)
             (some c) seen' = .avg (sumRat (((numArgs a rows) ++ [(d, x, s)]).map (·.2.1)))
+              (maxScale (((numArgs a rows) ++ [(d, x, s)]).map (·.2.2)))
               ((numArgs a rows) ++ [(d, x, s)]).length (some c) seen' := by
           intro seen'
-          simp only [List.map_append, List.map_cons, List.map_nil, sumRat_snoc, List.length_append, List.length_cons,
-            List.length_nil]
+          simp only [List.map_append, List.map_cons, List.map_nil, sumRat_snoc, maxScale_snoc, List.length_append,
+            List.length_cons, List.length_nil]
         cases hd : a.dist with
         | false =>
           have e1 : numArgs a (rows ++ [r]) = numArgs a rows ++ [(d, x, s)] := by
@@ -550,5 +553,44 @@ theorem max_inv (a : AggSpec) (hk : a.kind = .max) : ∀ rows : List Row, ValsOk
         refine ⟨if keyLt (some m) (some t) then t else m, ?_, this⟩
         have hne : (a.kind == AggK.min) = false := by rw [hk]; rfl
         simp [AccSt.update, he, hne, keyGt_flip _ _ ht hmok]
+
+/-! ### the fraction digits of a terminating quotient -/
+
+theorem decScaleAux_some (v : Rat) : ∀ (f s m : Nat), decScaleAux v f s = some m →
+    s ≤ m ∧ m < s + f ∧ (v * ((pow10 m : Nat) : Rat)).den = 1 ∧
+    ∀ j, s ≤ j → j < m → (v * ((pow10 j : Nat) : Rat)).den ≠ 1 := by
+  intro f
+  induction f with
+  | zero => intro s m h; simp [decScaleAux] at h
+  | succ f ih =>
+    intro s m h
+    simp only [decScaleAux] at h
+    by_cases hd : (v * ((pow10 s : Nat) : Rat)).den = 1
+    · simp only [hd, beq_self_eq_true, if_true, Option.some.injEq] at h
+      subst h
+      exact ⟨Nat.le_refl _, by omega, hd, fun j h1 h2 => by omega⟩
+    · have hb : ((v * ((pow10 s : Nat) : Rat)).den == 1) = false := by simpa using hd
+      simp only [hb, Bool.false_eq_true, if_false] at h
+      obtain ⟨h1, h2, h3, h4⟩ := ih (s + 1) m h
+      refine ⟨by omega, by omega, h3, fun j hj1 hj2 => ?_⟩
+      by_cases e : j = s
+      · subst e; exact hd
+      · exact h4 j (by omega) hj2
+
+theorem decScaleAux_none (v : Rat) : ∀ (f s : Nat), decScaleAux v f s = none →
+    ∀ j, s ≤ j → j < s + f → (v * ((pow10 j : Nat) : Rat)).den ≠ 1 := by
+  intro f
+  induction f with
+  | zero => intro s _ j h1 h2; omega
+  | succ f ih =>
+    intro s h j h1 h2
+    simp only [decScaleAux] at h
+    by_cases hd : (v * ((pow10 s : Nat) : Rat)).den = 1
+    · simp [hd] at h
+    · have hb : ((v * ((pow10 s : Nat) : Rat)).den == 1) = false := by simpa using hd
+      simp only [hb, Bool.false_eq_true, if_false] at h
+      by_cases e : j = s
+      · subst e; exact hd
+      · exact ih (s + 1) h j (by omega) (by omega)
 
 end RV.C08
